@@ -138,7 +138,8 @@ def prune_builds(keep=2):
             for f in os.listdir(d):
                 fp = os.path.join(d, f)
                 try:
-                    if now - os.path.getmtime(fp) > 5 * 3600:
+                    # files are touched whenever a check uses them; a day without use = an older version of the monitors
+                    if now - os.path.getmtime(fp) > 24 * 3600:
                         os.remove(fp)
                 except OSError:
                     pass
@@ -190,9 +191,16 @@ def compile_object(src, kind, defs=()):
     os.makedirs(odir, exist_ok=True)
     out = os.path.join(odir, "%s-%s-%s.o" % (os.path.basename(src), kind, key))
     with _obj_lock:
-        if out in _obj_cache:
+        # the memo is only trusted while the file is still there (another process, or prune_builds of a later property in
+        # this process, may have removed an object that looked unused)
+        if out in _obj_cache and (_obj_cache[out][0] is None or os.path.exists(out)):
             return _obj_cache[out]
-        if not os.path.exists(out):
+        if os.path.exists(out):
+            try:
+                os.utime(out, None)   # "in use": prune_builds goes by the modification time
+            except OSError:
+                pass
+        else:
             cmd = flags + ["-I" + os.path.join(REPO, "include"), "-I" + os.path.join(REPO, "src", "example", "pegtl"), "-I" + os.path.join(VERIF, "cpp")]
             cmd += ["-D" + d for d in defs] + ["-c", src, "-o", out + ".tmp%d" % os.getpid()]
             p = subprocess.run(cmd, stdout=subprocess.PIPE, stderr=subprocess.STDOUT, text=True)
